@@ -49,6 +49,10 @@ def gen(rng, k):
             if kind == 'cannot' and a == ra:
                 nm = low
             cas.append(dict(name=nm, addr=a, bypass=(phase == 'normal'), subs=[cid], req=reqs))
+            if phase != 'normal' and rng.random() < 0.5:
+                # an application-defined CA class with a permissive acceptance filter: without an address it still neither
+                # calls back nor answers
+                cas[-1]['accept_all'] = True
             meta.append(dict(stack=s, ca=j, phase=phase, addr=a, reqs=reqs, name=cas[-1]['name'] & ~(1 << 48)))
             cid += 10
             if phase == 'wait':
@@ -94,11 +98,16 @@ def gen(rng, k):
         dp = rng.choice([0, 0, 0, 1])
         if not req_has_addr:
             pgn = rng.choice([0xEE00, 0xEE00, 0xFECA])
+        if req_has_addr and dest != 255 and dest in owned and rng.random() < 0.35 and not any(c.get('accept_all') for sd in stacks for c in sd['cas']):
+            # the requester has a multi-packet transfer to the same destination in progress when it sends the request
+            script.append(dict(t=t, s=0, op='ca_send', ca=0, a=[0, 0xD0, dest, 6, dict(seed=rng.getrandbits(20), len=rng.choice([9, 20]))]))
         script.append(dict(t=t, s=0, op='ca_request', ca=0, a=[dp, pgn, dest]))
     script.sort(key=lambda e: e['t'])
     sc = dict(stacks=stacks, lat=[rng.choice([0, 1, 5000])], jit=[1], script=script, horizon=1_240_000, meta=meta, requester=dict(addr=ra, has=req_has_addr))
     if tx_errors:
         sc['tx_errors'] = tx_errors
+    if any(c.get('accept_all') for sd in stacks for c in sd['cas']):
+        sc['oracle_only'] = True        # the permissive filter also widens what the ECU accepts: outside the model
     return sc
 
 
